@@ -552,6 +552,19 @@ func (g *genCtx) genEvict(backend string, big bool) {
 	g.finish(h)
 }
 
+// target probe: entries of one byte each, so the byte counter after evict(L) is exactly
+// int64(float64(L)*0.8) whenever that is below the population size
+func (g *genCtx) genTargetProbe(backend string) {
+	h := newHist(backend, 64, huge, huge, "target-probe")
+	n := 8 + g.r.Intn(8)
+	for i := 0; i < n; i++ {
+		g.next++
+		h.opStore(g.next, g.r.Intn(64), 1, int64(g.r.Intn(50)), 3600000, nil, g.r)
+	}
+	h.opEvict(int64(g.r.Intn(22))-2, nil)
+	g.finish(h)
+}
+
 // G3: stores into a cache with a small limit: every store decides whether to evict
 func (g *genCtx) genStoreTrigger(backend string) {
 	shards := emit.Pick(g.r, shardCounts)
@@ -759,12 +772,12 @@ func runHist() {
 	w := &emit.Writer{Dir: *flagOut, Prefix: "hist", ShardSize: 120,
 		Imports:  "From Reservoir Require Import Base.Prelude Model.Evict Check.Evict.",
 		CaseType: "hcase", CheckFn: "check_evict"}
-	m.Rule = "histories on the real MemoryCache/FileCache: populations of 0-8 entries (sizes 0-400 B with ties, or around MiB multiples), hook-set whole-ms access ages with deliberate ties, expiry offsets >= 5 s from now, shard counts 1/2/3/64, held shard locks, limits around the stored total (== total, total+1, 5/4 total, 1, random); generators evict-small, evict-MiB, store-trigger, cycle, cleanup-yield (store/refresh/delete at janitor.afterScan), mixed (limit changes through config.UpdatePartialFromConfig, memcap, advance), directed boundary cases. distinct by the full case term; non-trivial = some entry was evicted/cleaned or a store/cycle/evict ran at or over its limit"
+	m.Rule = "histories on the real MemoryCache/FileCache: populations of 0-8 entries (sizes 0-400 B with ties, or around MiB multiples), hook-set whole-ms access ages with deliberate ties, expiry offsets >= 5 s from now, shard counts 1/2/3/64, held shard locks, limits around the stored total (== total, total+1, 5/4 total, 1, random); generators evict-small, evict-MiB, store-trigger, cycle, cleanup-yield (store/refresh/delete at janitor.afterScan), target-probe (1-byte entries: the counter after evict(L) is the binary64 target itself), mixed (limit changes through config.UpdatePartialFromConfig, memcap, advance), directed boundary cases. distinct by the full case term; non-trivial = some entry was evicted/cleaned or a store/cycle/evict ran at or over its limit"
 	g := &genCtx{r: r, w: w, m: m}
 
 	mult := 1
 	if thorough() {
-		mult = 12
+		mult = 8
 	}
 	for _, be := range []string{"Mem", "File"} {
 		g.genDirected(be)
@@ -774,12 +787,13 @@ func runHist() {
 		mem  int
 		file int
 	}{
-		{func(b string) { g.genEvict(b, false) }, 260, 90},
-		{func(b string) { g.genEvict(b, true) }, 24, 8},
-		{g.genStoreTrigger, 70, 30},
-		{g.genCycle, 90, 40},
-		{g.genYield, 110, 50},
-		{g.genMixed, 60, 25},
+		{func(b string) { g.genEvict(b, false) }, 600, 200},
+		{func(b string) { g.genEvict(b, true) }, 40, 12},
+		{g.genTargetProbe, 40, 20},
+		{g.genStoreTrigger, 150, 60},
+		{g.genCycle, 220, 90},
+		{g.genYield, 260, 110},
+		{g.genMixed, 130, 50},
 	}
 	for _, p := range plan {
 		for i := 0; i < p.mem*mult; i++ {
